@@ -761,7 +761,7 @@ func (c *c24Case) checkConverged() {
 func TestVerifC24SnapCache(t *testing.T) {
 	ev.Quiet()
 	rec := ev.New("C24", "snapcache",
-		"rapid-generated rounds of upstream input to the real snapshot cache (MaxBatchSize 1..6): OnUpdates slices of 1..6 updates (set / return to an earlier value, incl. by construction a key leaving and returning to its published value within one breadcrumb / same-value-new-revision repeat / delete / delete of unknown key / nil-valued validation failure; HostConfig string values, WorkloadEndpoint structs, v3 Node resources) interleaved with status changes; each round ends with a sentinel update; prefill mode (goroutine stopped while the round is queued: deterministic batching) or live mode; one simulated client per crumb (= every join point) applying snapshot then deltas. Non-trivial = a client that joined at a non-initial crumb later had a held key overwritten or deleted by a delta AND the in-sync rule was evaluated for a status that became InSync in that round with >=1 key constraint; distinct = distinct (mode,batch size,round item shapes)",
+		"rapid-generated rounds of upstream input to the real snapshot cache (MaxBatchSize 1..6): OnUpdates slices of 1..6 updates (set / return to an earlier value, incl. by construction a key leaving and returning to its published value within one breadcrumb / same-value-new-revision repeat / delete / delete of unknown key / nil-valued validation failure; HostConfig string values, WorkloadEndpoint structs, v3 Node resources) interleaved with status changes; each round ends with a sentinel update; prefill mode (goroutine stopped while the round is queued: deterministic batching) or live mode; one simulated client per crumb (= every join point) applying snapshot then deltas; plus bursts of joins through the real shared pre-calculated binary snapshot (healthy / connection already dead / connection dies while being sent it) at quiescent points. Non-trivial = a client that joined at a non-initial crumb later had a held key overwritten or deleted by a delta AND the in-sync rule was evaluated for a status that became InSync in that round with >=1 key constraint; distinct = distinct (mode,batch size,round item shapes)",
 		"the crumb carrying a round's sentinel delta is the last crumb of that round (the cache processes its input channel in order)",
 		"revision / resourceVersion-only changes are not part of the compared view (the cache squashes them by design)")
 	defer rec.Write()
